@@ -1,4 +1,3 @@
 SPECIFICATION Spec
-INVARIANT NoViolation
 POSTCONDITION Accepted
 CHECK_DEADLOCK FALSE
